@@ -23,7 +23,7 @@ import (
 
 type opDef struct {
 	Name      string
-	Kind      string // commit | branch | checkout | merge | octopus | tag | atag | orphan | rmobj | truncobj | toggle | gitpush | lfspush | fetch | other-del | other-reset | other-advance | srv-gc
+	Kind      string // commit | branch | checkout | merge | octopus | tag | atag | orphan | rmobj | truncobj | rstore | toggle | gitpush | lfspush | fetch | other-del | other-reset | other-advance | srv-gc
 	Push      bool   // git push / git lfs push: evaluated by the oracle
 	Faultable bool   // server-fault probes are run on this operation
 	Remote    int
@@ -456,6 +456,45 @@ func (e *envT) apply(w *worker, st *wstate, o opDef) (res gitx.Res, enabled bool
 		p := gitx.ObjectPath(filepath.Join(loc, ".git", "lfs"), oid)
 		os.Chmod(p, 0644)
 		if err := os.WriteFile(p, objContent[o.Label][:len(objContent[o.Label])/2], 0644); err != nil {
+			panic(vx.ToolError{Msg: err.Error()})
+		}
+		return ok0(), true
+	case "rstore":
+		// the LFS store of the file:// remote already holds something under the object's name (left there by another
+		// tool / an interrupted write / a truncation through a hard link): o.Form names what
+		if !e.fileMode {
+			return res, false
+		}
+		oid := objOid[o.Label]
+		if _, ex := st.RStore[o.Remote][oid]; ex {
+			return res, false
+		}
+		for _, d := range st.RDirs[o.Remote] {
+			if d == oid {
+				return res, false
+			}
+		}
+		p := gitx.ObjectPath(filepath.Join(w.bare(o.Remote), "lfs"), oid)
+		if err := os.MkdirAll(filepath.Dir(p), 0755); err != nil {
+			panic(vx.ToolError{Msg: err.Error()})
+		}
+		data := objContent[o.Label]
+		var err error
+		switch o.Form {
+		case "correct":
+			err = os.WriteFile(p, data, 0444)
+		case "truncated":
+			err = os.WriteFile(p, data[:len(data)/2], 0444)
+		case "empty":
+			err = os.WriteFile(p, nil, 0444)
+		case "longer":
+			err = os.WriteFile(p, append(append([]byte{}, data...), "trailing bytes"...), 0444)
+		case "directory":
+			err = os.Mkdir(p, 0755)
+		default:
+			panic(vx.ToolError{Msg: "rstore: unknown form " + o.Form})
+		}
+		if err != nil {
 			panic(vx.ToolError{Msg: err.Error()})
 		}
 		return ok0(), true
